@@ -145,6 +145,13 @@ theorem fast_read_no_panic (skip : Nat → Bytes → FRes Nat) (hs : SkipBounded
   intro q _
   trivial
 
+/-- **the suggested repair suffices**: with `typeToSize[uint8(t)]` and one bounds check before the `return i, nil`
+of the MAP loop (`Gopkg.skipTypeF`, otherwise a verbatim copy of `skipType`), the generated FastRead never panics,
+for every schema and every byte string — no hypothesis left. -/
+theorem fast_read_no_panic_with_repaired_skip (P : Prog) (sidx : Nat) (bs : Bytes) :
+    NoPanic (fastReadWith Gopkg.skipF P sidx bs) :=
+  fast_read_no_panic Gopkg.skipF skipF_bounded P sidx bs
+
 /-- witness 1: gopkg's Skip answers 14 for an 11-byte buffer (map<string,i32>, one entry, cut inside the value):
 the slow path of the MAP case adds a fixed value size without comparing it to the end of the buffer. And it
 panics (index out of range) on a type byte ≥ 0x80, `TType` being `int8`. -/
